@@ -36,7 +36,7 @@ _CONTROL = (_Return, _Break, _Continue)
 
 
 class Env:
-    __slots__ = ("locals", "parent", "globals", "gdecl", "ndecl", "cells", "cls", "fn", "first_arg", "qual")
+    __slots__ = ("locals", "parent", "globals", "gdecl", "ndecl", "cells", "cls", "fn", "first_arg", "qual", "genbuf")
 
     def __init__(self, globals_, parent=None, cells=None, cls=None, fn=None, qual=None):
         self.locals = {}
@@ -49,6 +49,35 @@ class Env:
         self.fn = fn
         self.first_arg = None
         self.qual = qual
+        self.genbuf = None        # list of yielded values while a generator body is run eagerly
+
+
+class EagerGenerator:
+    """A generator function that receives symbolic arguments is run EAGERLY by the interpreter: its body is executed to the
+    end at the first next(), the yielded values are buffered and then handed out one by one.  Sound for generators that do
+    not depend on what the consumer does between two items and that are consumed (send()/throw() are not supported; an
+    exception of the body surfaces at the first next(); an endless generator runs into the loop unwinding limit)."""
+
+    def __init__(self, thunk, name):
+        self._thunk = thunk
+        self._it = None
+        self.__qualname__ = name
+
+    def __iter__(self):
+        return self
+
+    def __next__(self):
+        if self._it is None:
+            self._it = iter(self._thunk())
+        return next(self._it)
+
+    def send(self, value):
+        if value is not None:
+            raise Unmodelled("send() into an eagerly run generator")
+        return self.__next__()
+
+    def close(self):
+        self._it = iter(())
 
 
 class InterpFunction:
@@ -221,7 +250,9 @@ class Interp:
         if isinstance(f, types.FunctionType) and self.interpretable(f):
             if f.__code__.co_flags & CO_GENERATOR:
                 if (contains_sym(args) or contains_sym(kwargs)) and f.__qualname__ not in self.native_generators:
-                    raise Unmodelled("generator function %s called with symbolic arguments" % f.__qualname__)
+                    from . import models as _models
+                    _models.USED.add("generator functions with symbolic arguments are run eagerly (items buffered)")
+                    return EagerGenerator(lambda: self.run_generator_eagerly(f, args, kwargs), f.__qualname__)
                 return f(*args, **kwargs)
             return self.call_real_function(f, args, kwargs)
         if isinstance(f, type):
@@ -439,6 +470,19 @@ class Interp:
             env.first_arg = args[0]
         return self.run_body(node, env)
 
+    def run_generator_eagerly(self, fn, args, kwargs):
+        node, cls = self.fn_ast(fn)
+        cells = None
+        if fn.__closure__:
+            cells = dict(zip(fn.__code__.co_freevars, fn.__closure__))
+        env = Env(fn.__globals__, None, cells, cls, fn, fn.__qualname__)
+        env.locals = self.bind_args(node.args, args, kwargs, fn.__defaults__, fn.__kwdefaults__, fn.__name__)
+        if args:
+            env.first_arg = args[0]
+        env.genbuf = []
+        self.run_body(node, env)
+        return env.genbuf
+
     def call_interp_function(self, f, args, kwargs):
         node = f._node
         env = Env(f._env.globals, f._env, None, f._env.cls, f, f.__qualname__)
@@ -638,10 +682,32 @@ class Interp:
         else:
             self.exec_block(node.orelse, env)
 
+    STAGNATION = 64      # consecutive iterations without any change of the local state and without a solver decision
+
+    def _loop_fingerprint(self, env):
+        eng = E.active()
+        fp = [eng.informative if eng is not None else 0, len(env.genbuf) if env.genbuf is not None else -1]
+        for k in sorted(env.locals):
+            v = env.locals[k]
+            fp.append((k, v if type(v) in (int, str, bytes, bool, float, type(None)) else id(v)))
+        return fp
+
     def st_While(self, node, env):
         n = 0
+        same = 0
+        last = None
         while self.truth(self.eval(node.test, env)):
             n += 1
+            if n % 8 == 0 and E.active() is not None and env.fn is not None and self.is_interp_module(getattr(env.fn, "__module__", None)) \
+                    and str(getattr(env.fn, "__module__", "")).startswith("Pyro5"):
+                fp = self._loop_fingerprint(env)
+                if fp == last:
+                    same += 1
+                    if same >= self.STAGNATION:
+                        raise E.NonTermination("the loop at %s line %d makes no progress" % (env.qual, node.lineno))
+                else:
+                    same = 0
+                    last = fp
             if n > self.loop_limit:
                 eng = E.active()
                 if eng is not None:
@@ -1202,8 +1268,25 @@ class Interp:
         self._comp(node.generators, env, emit)
         return out
 
-    def ex_Yield(self, node, env):
+    def _genbuf(self, env):
+        e = env
+        while e is not None:
+            if e.genbuf is not None:
+                return e.genbuf
+            if e.fn is not None:
+                break
+            e = e.parent
         raise Unmodelled("yield in interpreted function")
+
+    def ex_Yield(self, node, env):
+        self._genbuf(env).append(self.eval(node.value, env) if node.value is not None else None)
+        return None
+
+    def ex_YieldFrom(self, node, env):
+        buf = self._genbuf(env)
+        for item in self.iterate_to_list(self.eval(node.value, env)):
+            buf.append(item)
+        return None
 
     def ex_Await(self, node, env):
         raise Unmodelled("await")
